@@ -286,16 +286,16 @@ def uncoveredVertex (poly : Array (V2 Rat)) (P : List (List (V2 Rat))) : Option 
 
 /-- upper bound of the area (×2) that pruning nearly collinear vertices can remove from the pieces: a pruned chain between
 two kept neighbours `u, w` of a shape is a convex cap on the outer side of `u → w`, of area2 at most twice the largest
-`area2(u, v, w)` of its vertices; summed over the input vertices `v` in the thin band (height ≤ 1e-2·|uw|) outside each shape
-edge.  Zero when no input vertex lies in such a band: the areas must then add up exactly. -/
+`area2(u, v, w)` of its vertices, and the path `u → v → w` turns left by at most the chain's total turn (each pruned corner
+turns < 1.73e-4 rad).  Summed over the input vertices `v` outside a shape edge with such a nearly straight (≤ 1e-2 rad) left
+turn at `v`.  Zero when there is no such vertex: the areas must then add up exactly.  (A vertex at which `u → v → w` turns
+sharply — e.g. the far side of a needle next to the edge — is not a pruned vertex, however close to the edge it is.) -/
 def pruneAllowance (poly : Array (V2 Rat)) (P : List (List (V2 Rat))) : Rat :=
   P.foldl (fun acc p => (edgesOf p).foldl (fun acc e =>
-    let d := e.2.sub e.1; let dd := d.dot d
     poly.foldl (fun acc v =>
-      let r := v.sub e.1
-      let cr := d.x * r.y - d.y * r.x
-      let t := d.dot r
-      if cr < 0 && 0 < t && t < dd && cr * cr * 10000 ≤ dd * dd then acc - 2 * cr else acc) acc) acc) 0
+      let a := v.sub e.1; let b := e.2.sub v
+      let cr := a.x * b.y - a.y * b.x
+      if cr > 0 && a.dot b > 0 && cr * cr * 10000 ≤ (a.dot a) * (b.dot b) then acc + 2 * cr else acc) acc) acc) 0
 
 /-- two input vertices closer than 1e-15: an edge between them has no `ccw_face_normal` (threshold 2.2e-16) -/
 def hasDegenerateEdge (poly : Array (V2 Rat)) : Bool :=
